@@ -18,6 +18,9 @@
 -/
 import XotModel.Lemmas.FinvReach2
 import XotModel.Lemmas.FinvStable
+import XotModel.Lemmas.FinvValue7
+import XotModel.Lemmas.FinvReads
+import XotModel.Lemmas.FinvPrefix
 
 namespace XotModel.Props
 open XotModel
@@ -101,7 +104,6 @@ identity), and for every outcome of the call (`ok`, `err`, `panic`). -/
 
 /-- Node creation. -/
 theorem C04_newNode (f : Forest) (v : Value) (h : f.Inv) : (f.newNode v).1.Inv := Forest.newNode_inv h v
-
 theorem C04_newDocument (f : Forest) (h : f.Inv) : f.newDocument.1.Inv := Forest.newNode_inv h _
 theorem C04_newElement (f : Forest) (n : Nat) (h : f.Inv) : (f.newElement n).1.Inv := Forest.newNode_inv h _
 theorem C04_newText (f : Forest) (s : Str) (h : f.Inv) : (f.newText s).1.Inv := Forest.newNode_inv h _
@@ -116,7 +118,6 @@ theorem C04_newNamespaceNode (f : Forest) (p n : Nat) (h : f.Inv) :
 /-- The text-consolidation helpers of manipulation.rs keep the invariant for all arguments. -/
 theorem C04_removeConsolidate (f : Forest) (prev next : Option Nat) (h : f.Inv) :
     (f.removeConsolidate prev next).1.Inv := Forest.removeConsolidate_inv h prev next
-
 theorem C04_addConsolidate (f : Forest) (node : Nat) (prev next : Option Nat) (h : f.Inv) :
     (f.addConsolidate node prev next).1.Inv := Forest.addConsolidate_inv h node prev next
 
@@ -249,7 +250,6 @@ theorem C04_reach (ops : List Op) (hc : ∀ o ∈ ops, o.core = true) : (Forest.
 
 theorem C04_reach_bool (ops : List Op) (hc : ∀ o ∈ ops, o.core = true) : (Forest.init.run ops).inv = true :=
   (Forest.inv_iff _).mpr (C04_reach ops hc)
-
 /-- The same without the (now vacuous) side condition. -/
 theorem C04_step_all (f : Forest) (o : Op) (h : f.Inv) : (f.step o).Inv :=
   Forest.step_inv h o (by cases o <;> rfl)
@@ -303,13 +303,11 @@ theorem C04_replace (f : Forest) (a b : Nat) (h : f.Inv) : (f.replace a b).1.Inv
   Forest.replace_inv h a b
 
 theorem C04_replaceStatement_holds : C04_replaceStatement := fun f a b h => C04_replace f a b h
-
 /-- `element_wrap`: full statement (the gap case by evaluating its steps on the explicit forest). -/
 theorem C04_elementWrap (f : Forest) (node name : Nat) (h : f.Inv) : (f.elementWrap node name).1.Inv :=
   Forest.elementWrap_inv h node name
 
 theorem C04_elementWrapStatement_holds : C04_elementWrapStatement := fun f n name h => C04_elementWrap f n name h
-
 /-- The guard is vacuous once consolidation has ever been off. -/
 theorem C04_textGap_off (f : Forest) (a : Nat) (h : f.everOff = true) : f.textGap a = false := by
   unfold Forest.textGap; cases f.ctx? a <;> simp [h]
@@ -320,7 +318,6 @@ theorem C04_elementUnwrap (f : Forest) (node : Nat) (h : f.Inv) : (f.elementUnwr
   Forest.elementUnwrap_inv h node
 
 theorem C04_elementUnwrapStatement_holds : C04_elementUnwrapStatement := fun f n h => C04_elementUnwrap f n h
-
 /-- The replay loop of `clone_node` (`new_node` + `any_append` per source node) preserves the
     invariant; `clone_node` of a document or of a leaf node does; for an element the state before
     the final indextree `remove` of the temporary top does. -/
@@ -350,7 +347,6 @@ theorem C04_cloneNode (f : Forest) (node : Nat) (h : f.Inv) : (f.cloneNode node)
   Forest.cloneNode_inv h node
 
 theorem C04_cloneNodeStatement_holds : C04_cloneNodeStatement := fun f n h => C04_cloneNode f n h
-
 /-- Non-vacuity: a strict forest with a gap (`<a>x<b/>y</a>`, `b` between two texts) and one
     without; the gap case is not empty. -/
 def gapForest : Forest := { roots := [.node 0 (.element 1) [.node 1 (.text ['x']) [], .node 2 (.element 2) [], .node 3 (.text ['y']) []], .node 4 (.text ['z']) [], .node 5 (.element 3) []], next := 6 }
@@ -408,5 +404,195 @@ theorem C04_value_stable_detach (f : Forest) (n h : Nat) (v : Value) (hi : f.Inv
     of `a` and rewrites the text `x`. -/
 example : (gapForest.remove 2).1.value? 0 = some (.element 1) ∧
     (gapForest.remove 2).1.value? 1 = some (.text ['x', 'y']) := by decide
+
+/-! ### A handle keeps its meaning: every call, every history
+
+`Forest.Call` / `Forest.HStep` / `Op`: all calls of the mutating API.  `c.targets f`
+(Model/FlocalSpec.lean) are the handles whose value the call may overwrite: the argument of
+`set_element_name` and of the text / comment / PI setters, the text node `text_content_mut` hands
+out, and for a map insertion (`insert`, `append_attribute_node`, `append_namespace_node`,
+`any_append` of an entry node) the existing entry node of that key; empty for every other call.
+`Forest.TextExt v v'`: both are text and the old content is a contiguous part of the new one (what
+consolidation does to the text node that survives a merge: `old ++ merged` when the surviving node
+is the earlier one, `merged ++ old` when a text node is placed in front of it). -/
+
+/-- One call, whatever its arguments and outcome: a handle live before and after denotes a node
+    of the same kind; unless it is a target its value is the same or, for text, extended; a node
+    that is not text and not a target has exactly the same value. -/
+theorem C04_value_call (f : Forest) (hi : f.Inv) (c : Forest.Call) (x : Nat) (v v' : Value)
+    (hv : f.value? x = some v) (hv' : (c.run f).1.value? x = some v') :
+    SameKind v v' ∧ (x ∉ c.targets f → v' = v ∨ Forest.TextExt v v') ∧
+    (x ∉ c.targets f → v.isText = false → v' = v) :=
+  ((Forest.vstep_call (S := fun y => y ∈ c.targets f) hi c (fun _ h => h)).value hi hv hv').cases_any
+
+/-- The same for the steps that are not calls on nodes (creation, set_text_consolidation,
+    remove_insignificant_whitespace: no targets). -/
+theorem C04_value_step (f : Forest) (hi : f.Inv) (st : Forest.HStep) (x : Nat) (v v' : Value)
+    (hv : f.value? x = some v) (hv' : (f.stepAll st).value? x = some v') :
+    SameKind v v' ∧ (x ∉ st.targets f → v' = v ∨ Forest.TextExt v v') ∧
+    (x ∉ st.targets f → v.isText = false → v' = v) :=
+  ((Forest.vstep_stepAll (S := fun y => y ∈ st.targets f) hi st (fun _ h => h)).value hi hv hv').cases_any
+
+/-- A handle that was live is afterwards live or removed (and then stays removed,
+    `C04_isRemoved_history`). -/
+theorem C04_live_or_removed (f : Forest) (hi : f.Inv) (st : Forest.HStep) (x : Nat)
+    (hl : f.isLive x = true) : (f.stepAll st).isLive x = true ∨ (f.stepAll st).isRemoved x = true :=
+  (Forest.vstep_stepAll (S := fun _ => True) hi st (fun _ _ => trivial)).live_or_removed hi hl
+
+/-- `clone_node` changes no value at all. -/
+theorem C04_value_cloneNode (f : Forest) (hi : f.Inv) (n x : Nat) (v : Value)
+    (hv : f.value? x = some v) (hl : (f.cloneNode n).1.isLive x = true) :
+    (f.cloneNode n).1.value? x = some v := by
+  rw [Forest.isLive_iff_value?] at hl
+  cases hv' : (f.cloneNode n).1.value? x with
+  | none => rw [hv'] at hl; cases hl
+  | some v' =>
+    rcases (Forest.vstep_cloneNode (S := fun _ => False) (T := fun _ => False) hi n).value hi hv hv' with h | h | h
+    · rw [h]
+    · exact h.1.elim
+    · exact h.1.elim
+
+/-- Exactly which values a move can change (text included): `append(p, c)` the previous sibling of
+    `c` and the last child of `p` (read after the old-site merge); `prepend` the first child;
+    `insert_after` / `insert_before` the reference node and its neighbour on the other side;
+    `detach` / `remove` the previous sibling. -/
+theorem C04_value_exact_append (f : Forest) (hi : f.Inv) (p c x : Nat) (v v' : Value)
+    (hv : f.value? x = some v) (hv' : (f.append p c).1.value? x = some v')
+    (hx : x ∉ f.appendSites p c) : v' = v := Forest.append_value_exact hi p c hv hv' hx
+theorem C04_value_exact_prepend (f : Forest) (hi : f.Inv) (p c x : Nat) (v v' : Value)
+    (hv : f.value? x = some v) (hv' : (f.prepend p c).1.value? x = some v')
+    (hx : x ∉ f.prependSites p c) : v' = v := Forest.prepend_value_exact hi p c hv hv' hx
+theorem C04_value_exact_insertAfter (f : Forest) (hi : f.Inv) (r c x : Nat) (v v' : Value)
+    (hv : f.value? x = some v) (hv' : (f.insertAfter r c).1.value? x = some v')
+    (hx : x ∉ f.insertAfterSites r c) : v' = v := Forest.insertAfter_value_exact hi r c hv hv' hx
+theorem C04_value_exact_insertBefore (f : Forest) (hi : f.Inv) (r c x : Nat) (v v' : Value)
+    (hv : f.value? x = some v) (hv' : (f.insertBefore r c).1.value? x = some v')
+    (hx : x ∉ f.insertBeforeSites r c) : v' = v := Forest.insertBefore_value_exact hi r c hv hv' hx
+theorem C04_value_exact_detach (f : Forest) (hi : f.Inv) (n x : Nat) (v v' : Value)
+    (hv : f.value? x = some v) (hv' : (f.detach n).1.value? x = some v')
+    (hx : f.prevSibling n ≠ some x) : v' = v := Forest.detach_value_exact hi n hv hv' hx
+theorem C04_value_exact_remove (f : Forest) (hi : f.Inv) (n x : Nat) (v v' : Value)
+    (hv : f.value? x = some v) (hv' : (f.remove n).1.value? x = some v')
+    (hx : f.prevSibling n ≠ some x) : v' = v := Forest.remove_value_exact hi n hv hv' hx
+
+/-- The root `c` of a moved subtree, if still live after the move, has exactly its old value: a
+    text node arriving next to a text node is merged into it and removed (the earlier node, or the
+    node already there, survives), otherwise nothing writes to the moved node. -/
+theorem C04_value_moved_root (f : Forest) (hi : f.Inv) (a c : Nat) (v v' : Value) (hv : f.value? c = some v) :
+    ((f.append a c).1.value? c = some v' → v' = v) ∧ ((f.prepend a c).1.value? c = some v' → v' = v) ∧
+    ((f.insertAfter a c).1.value? c = some v' → v' = v) ∧
+    ((f.insertBefore a c).1.value? c = some v' → v' = v) :=
+  ⟨Forest.append_root_exact hi a c hv, Forest.prepend_root_exact hi a c hv,
+   Forest.insertAfter_root_exact hi a c hv, Forest.insertBefore_root_exact hi a c hv⟩
+/-- Inside a moved subtree every other node keeps its value exactly, text nodes too. -/
+theorem C04_value_moved_append (f : Forest) (hi : f.Inv) (p c x : Nat) (tc : HTree) (v v' : Value)
+    (hg : f.get? c = some tc) (hx : x ∈ HTree.handles tc) (hxc : x ≠ c)
+    (hv : f.value? x = some v) (hv' : (f.append p c).1.value? x = some v') : v' = v :=
+  Forest.append_subtree_exact hi p c hg hx hxc hv hv'
+theorem C04_value_moved_prepend (f : Forest) (hi : f.Inv) (p c x : Nat) (tc : HTree) (v v' : Value)
+    (hg : f.get? c = some tc) (hx : x ∈ HTree.handles tc) (hxc : x ≠ c)
+    (hv : f.value? x = some v) (hv' : (f.prepend p c).1.value? x = some v') : v' = v :=
+  Forest.prepend_subtree_exact hi p c hg hx hxc hv hv'
+theorem C04_value_moved_insertAfter (f : Forest) (hi : f.Inv) (r c x : Nat) (tc : HTree) (v v' : Value)
+    (hg : f.get? c = some tc) (hx : x ∈ HTree.handles tc) (hxc : x ≠ c)
+    (hv : f.value? x = some v) (hv' : (f.insertAfter r c).1.value? x = some v') : v' = v :=
+  Forest.insertAfter_subtree_exact hi r c hg hx hxc hv hv'
+theorem C04_value_moved_insertBefore (f : Forest) (hi : f.Inv) (r c x : Nat) (tc : HTree) (v v' : Value)
+    (hg : f.get? c = some tc) (hx : x ∈ HTree.handles tc) (hxc : x ≠ c)
+    (hv : f.value? x = some v) (hv' : (f.insertBefore r c).1.value? x = some v') : v' = v :=
+  Forest.insertBefore_subtree_exact hi r c hg hx hxc hv hv'
+
+/-- Summary.  Along any history of calls, between any two points of time `pre` and `pre ++ mid` at
+    which the handle `h` is live (it is then live throughout, `C04_isRemoved_history`): the node
+    kind is the same; if no call in between had `h` among its targets (each call judged in the
+    state it is issued in, `Forest.neverTarget`) the value is the same, text content possibly
+    extended by consolidation; so a node that is not text has exactly the same value. -/
+theorem C04_handle_meaning (f : Forest) (hi : f.Inv) (pre mid : List Op) (h : Nat) (v v' : Value)
+    (hv : (f.run pre).value? h = some v) (hv' : ((f.run pre).run mid).value? h = some v') :
+    SameKind v v' ∧ ((f.run pre).neverTarget h mid → v' = v ∨ Forest.TextExt v v') ∧
+    ((f.run pre).neverTarget h mid → v.isText = false → v' = v) := by
+  have hi1 : (f.run pre).Inv := Forest.run_inv hi pre (fun o _ => by cases o <;> rfl)
+  have key := Forest.history_value mid hi1 hv hv'
+  refine ⟨key.1, key.2, fun hn hnt => ?_⟩
+  rcases key.2 hn with e | e
+  · exact e
+  · exact (e.of_nontext hnt).elim
+
+/-- Non-vacuity: wrap / replace / map update / clone / whitespace removal on `gapForest`
+    (`<a>x<b/>y</a>`, text `z`, element 5): element 0 keeps its value, the text 1 is extended when
+    `b` is replaced by the text `z`; the attribute update is a target. -/
+def hmOps : List Op := [.elementWrap 2 9, .attrInsert 0 7 ['v'], .cloneNode 0, .replace 2 4,
+  .removeInsignificantWhitespace 0, .attrInsert 0 7 ['w'], .elementUnwrap 6]
+example : gapForest.Inv := (Forest.inv_iff _).mp (by decide)
+example : gapForest.value? 0 = some (.element 1) ∧ (gapForest.run hmOps).value? 0 = some (.element 1) ∧
+    gapForest.value? 1 = some (.text ['x']) ∧ (gapForest.run hmOps).value? 1 = some (.text ['x', 'z', 'y']) ∧
+    gapForest.neverTarget 0 hmOps ∧ (gapForest.run hmOps).isRemoved 3 = true := by decide +kernel
+example : (gapForest.run (hmOps.take 2)).value? 7 = some (.attribute 7 ['v']) ∧
+    (gapForest.run hmOps).value? 7 = some (.attribute 7 ['w']) ∧
+    ¬ (gapForest.run (hmOps.take 2)).neverTarget 7 (hmOps.drop 2) := by decide +kernel
+example : gapForest.appendSites 5 2 = [1] ∧ gapForest.insertAfterSites 3 4 = [3] := by decide +kernel
+
+/-! ### No read hands out a removed node -/
+
+/-- Every handle returned by a node-returning read (`Forest.Read`: parent, first_child, last_child,
+    next_sibling, previous_sibling, ancestors, children, descendants, the nodes of the attribute /
+    namespace maps, the map lookup, the roots) is live, hence not removed. -/
+theorem C04_reads_live (f : Forest) (hi : f.Inv) (r : Forest.Read) (x : Nat) (hx : x ∈ r.result f) :
+    f.isLive x = true ∧ f.isRemoved x = false :=
+  ⟨Forest.reads_live hi r x hx, Forest.isRemoved_false_of_live (Forest.reads_live hi r x hx)⟩
+
+/-- `is_removed(h)`: handed out earlier and not in the forest any more. -/
+theorem C04_isRemoved_iff (f : Forest) (h : Nat) :
+    f.isRemoved h = true ↔ h < f.next ∧ f.isLive h = false := by simp [Forest.isRemoved]
+
+/-- What a lookup returns is the node asked for, and all its nodes are live. -/
+theorem C04_get_live (f : Forest) (h x : Nat) (t : HTree) (hg : f.get? h = some t)
+    (hx : x ∈ HTree.handles t) : t.handle = h ∧ f.isLive x = true :=
+  ⟨Forest.get?_handle hg, Forest.live_of_get?_mem hg hx⟩
+
+example : (Forest.Read.children 0).result gapForest = [1, 2, 3] ∧
+    (Forest.Read.previousSibling 2).result gapForest = [1] := by decide
+
+/-! ### `create_missing_prefixes`, `deduplicate_namespaces` in the forest model
+
+Model/FatomSpec2.lean: after a read-only walk (the tree-level models of Repair.lean / Scope.lean on
+the erased root tree) both change the store only through `namespaces_mut(n).insert(prefix, ns)` /
+`namespaces_mut(n).remove(prefix)`, i.e. through `Forest.Call`s, run in the order the Rust issues
+them (`Forest.repairCalls`, `Forest.dedupCalls`, `Forest.runCalls`). -/
+
+/-- Every call of `Forest.Call` preserves the invariant (a map insertion carrying an entry of the
+    map's kind, as the Rust API constructs it). -/
+theorem C04_call_inv (f : Forest) (hi : f.Inv) (c : Forest.Call) (hw : c.wellKinded) : (c.run f).1.Inv :=
+  Forest.call_inv hi c hw
+
+/-- … hence every sequence of them. -/
+theorem C04_runCalls (f : Forest) (hi : f.Inv) (cs : List Forest.Call) (hw : ∀ c ∈ cs, c.wellKinded) :
+    (f.runCalls cs).1.Inv := Forest.runCalls_inv cs hi hw
+
+/-- `create_missing_prefixes(node)`: for every vocabulary, every node (element, document with
+    several top-level elements, or a node it refuses), whatever it answers. -/
+theorem C04_step_prefixes (f : Forest) (hi : f.Inv) (env : Env) (node : Nat) :
+    (f.createMissingPrefixes env node).1.Inv := Forest.createMissingPrefixes_inv hi env node
+
+/-- `deduplicate_namespaces(node)`. -/
+theorem C04_step_dedup (f : Forest) (hi : f.Inv) (env : Env) (node : Nat) :
+    (f.deduplicateNamespaces env node).1.Inv := Forest.deduplicateNamespaces_inv hi env node
+
+/-- Non-vacuity: `<a:e xmlns:p="urn:u"><a:e xmlns:p="urn:u"/></a:e>` with name 1 in namespace 2 and
+    no prefix for it in scope … one `n0` declaration is created; the inner duplicate of `p` is removed. -/
+def pfxEnv : Env :=
+  { namespaces := [[], ['x'], ['u'], ['w']], prefixes := [[], ['x','m','l'], ['p']],
+    names := [(['s'], 1), (['e'], 3)] }
+def pfxForest : Forest := { roots := [.node 0 (.element 1) [.node 1 (.namespace 2 2) [],
+  .node 2 (.element 1) [.node 3 (.namespace 2 2) []]]], next := 4 }
+example : pfxForest.inv = true := by decide
+example : ((pfxForest.createMissingPrefixes pfxEnv 0).1.get? 0).map (fun t => t.kids.map (·.value)) =
+    some [.namespace 2 2, .namespace 3 3, .element 1] ∧
+    (pfxForest.createMissingPrefixes pfxEnv 0).2.2 = .ok ∧
+    (pfxForest.createMissingPrefixes pfxEnv 0).2.1.prefixes = [[], ['x','m','l'], ['p'], ['n', '0']] ∧
+    (pfxForest.createMissingPrefixes pfxEnv 2).2.2 = .ok ∧
+    (pfxForest.createMissingPrefixes pfxEnv 1).2.2 = .err .notElement := by decide +kernel
+example : (pfxForest.deduplicateNamespaces pfxEnv 0).1.allHandles = [0, 1, 2] ∧
+    (pfxForest.deduplicateNamespaces pfxEnv 0).2 = .ok := by decide +kernel
 
 end XotModel.Props
